@@ -130,6 +130,7 @@ EXTRA = {
  'C15': ' The alphabet contains a point with a finite value but an infinite gradient; derivative flags (Hessian / BHHH requested or not) vary in the events; points far below the best are evaluated after estimate() (also after a bootstrap); histories that rename the model between evaluations are enumerated.',
  'C05': ' Nests are built under four naming modes (distinct names, unnamed, one shared name, an object first used in a smaller specification).',
  'C08': ' Also: power-of-two rescalings of Hessian / BHHH (all eigenvalues tiny, one or two badly scaled parameters, all huge) crossed with the identification threshold of the results object (default, 0, 1e-9 ... 1e4), which must not influence any figure; compiled tables with every entry given as a results object, as its pickle file or as an unreadable name (missing, corrupt, foreign, empty, directory) in every position, through compile_estimation_results and compile_results_in_directory.',
+ 'C13': ' A second breadth-first search (depth 3) runs over a wide alphabet: conditions whose values are non-zero at any magnitude (tiny factors, a column used as the condition, a raw non-zero number), tiny scale factors, a stored tiny column, and a formula that is NaN on some rows. Three exhaustive sweeps follow: 13 magnitudes from 2^-20 to 2^-1000 and 1e-7 to 1e-300 x 5 ways a condition value of that size arises x 4 earlier histories x 3 roots; all 31 placements of NaN in a defined variable followed by panel / remove / flatten; all 3^5 columns over {v1, v2, NaN} on 5 raw frame layouts handed directly to biogeme.tools.database.flatten_database (also called in every state of both searches).',
  'C14': ' Also: writer histories (pickle / html / latex / f12 / data dump, depth 3-4) over an alphabet of 12 model names (blanks, dots, ~, non-ASCII, long) in empty / own-files / neighbour-files directories; histories of set_value / dump_file / read_file on one Parameters object against a reference dictionary; pickle round trip and recycling under non-default identification thresholds.',
  'C16': ' Also: histories on a single Configuration object (8 ways of obtaining it x every configuration x every listing order, followed by 1-3 assignments of the public selections property), checked for identifier, equality / hash against the whole product, round trip, set membership, iteration and operators.',
  'C17': ' Nest structures are additionally explored in every order of writing them down (all permutations of the tuple of nests x all permutations of every member list, sorted and unsorted choice sets).',
